@@ -67,7 +67,6 @@ PRIOS = ('NOW', 'CREW', 'DOING', 'TODO')
 RANK = {'TODO': 0, 'DOING': 1, 'CREW': 2, 'NOW': 3}
 VALUE = {'NOW': 'now', 'CREW': 'crew_idle', 'DOING': 'doing_empty', 'TODO': 'todo_empty'}  # the wire strings
 KINDS = {'crew': 'is_crew_done', 'doing': 'is_doing_done', 'todo': 'is_todo_done'}
-MAX_RELOADS = 2
 SCRATCH = {'dir': None}
 
 
@@ -219,13 +218,12 @@ class Rig12(K.Rig):
             K.world_now(),
             self.in_progress['prio'] if self.in_progress else None,
             self.pending,
-            min(self.reloads, MAX_RELOADS),
         )
 
     # ---- events -------------------------------------------------------------------------------------------
     def available(self, max_subs):
         ev = []
-        if self.nsub < max_subs and self.reloads < MAX_RELOADS and self.in_progress is None:
+        if self.nsub < max_subs and self.in_progress is None:
             ev += ['B:' + p for p in PRIOS]
         if self.in_progress is not None:
             ev += ['F:ok', 'F:fail']
@@ -262,7 +260,7 @@ class Rig12(K.Rig):
         '''events whose successors are not expanded: a whole submission through the deprecated front end (on the
         FSM it is B:<p> followed at once by F:ok; while not active it must be refused) and the Z variants'''
         out = []
-        if self.nsub < max_subs and self.reloads < MAX_RELOADS:
+        if self.nsub < max_subs:
             out += ['S:' + p for p in PRIOS]
         if self.pending is None or self.in_progress is not None:
             return out
